@@ -132,7 +132,26 @@ fn check_invariants(zone: &Zone, expect_current: Option<u32>) -> Result<(u32, us
 
 // ------------------------------------------------ deterministic histories --
 
-type Content = BTreeMap<usize, u32>; // name index -> stamp
+type Content = BTreeMap<usize, u32>; // name index -> stamp; SOA_KEY -> serial of the apex SOA
+const SOA_KEY: usize = 1000;
+
+fn query_soa(r: &dyn ReadableZone) -> Vec<u32> {
+    match r.query(qname_of(APEX), Rtype::SOA) {
+        Ok(a) => match a.content() {
+            AnswerContent::Data(rr) => rr
+                .data()
+                .iter()
+                .filter_map(|d| {
+                    let mut b = Vec::new();
+                    d.compose_rdata(&mut b).ok()?;
+                    Some(u32::from_be_bytes(b[b.len() - 20..b.len() - 16].try_into().ok()?))
+                })
+                .collect(),
+            _ => vec![],
+        },
+        Err(_) => vec![u32::MAX],
+    }
+}
 
 #[derive(Debug, Clone)]
 enum Op {
@@ -144,7 +163,8 @@ enum Op {
     WUpdate(usize),
     WRemove(usize),
     WRemoveAll,
-    WCommit,
+    /// commit, with or without the automatic SOA serial bump
+    WCommit(bool),
     WAbandon,
 }
 
@@ -160,6 +180,11 @@ fn history(c: &mut Ctx, rt: &tokio::runtime::Runtime, fam: &str, idx: u64) {
             b.insert_rrset(&sname(&name_of(i)), txt_rrset(0)).unwrap();
         }
     }
+    if rng.chance(3, 4) {
+        let serial = *rng.pick(&[5000u32, 0xffff_ffff, 0x7fff_ffff]);
+        b.insert_rrset(&sname(APEX), shared_rrset(&RRset { name: APEX.to_vec(), rtype: T_SOA, ttl: 3600, rdatas: vec![rd_soa(APEX, serial)] })).unwrap();
+        init.insert(SOA_KEY, serial);
+    }
     let zone = b.build();
     let mut committed: Vec<Content> = vec![init];
     let mut readers: Vec<Option<(Box<dyn ReadableZone>, usize)>> = (0..3).map(|_| None).collect();
@@ -171,16 +196,16 @@ fn history(c: &mut Ctx, rt: &tokio::runtime::Runtime, fam: &str, idx: u64) {
     for _ in 0..nops {
         let op = match rng.below(20) {
             0..=2 => Op::Acquire(rng.below(3)),
-            3..=6 => Op::Query(rng.below(3), rng.below(NAMES.len())),
+            3..=6 => Op::Query(rng.below(3), rng.below(NAMES.len() + 1)),
             7 | 8 => Op::Walk(rng.below(3)),
             9 => Op::Release(rng.below(3)),
             10 | 11 => Op::WOpen(rng.bool()),
             12..=14 => Op::WUpdate(rng.below(NAMES.len())),
             15 | 16 => Op::WRemove(rng.below(NAMES.len())),
             17 => {
-                if rng.chance(1, 3) { Op::WRemoveAll } else { Op::WCommit }
+                if rng.chance(1, 3) { Op::WRemoveAll } else { Op::WCommit(rng.bool()) }
             }
-            18 => Op::WCommit,
+            18 => Op::WCommit(rng.bool()),
             _ => Op::WAbandon,
         };
         let ex = |trace: &Vec<String>| json!({"ops": trace});
@@ -193,8 +218,8 @@ fn history(c: &mut Ctx, rt: &tokio::runtime::Runtime, fam: &str, idx: u64) {
                 }
                 Op::Query(i, n) => {
                     if let Some((r, pinned)) = &readers[i] {
-                        let got = query_stamps(r.as_ref(), n);
-                        let want: Vec<u32> = committed[*pinned].get(&n).map(|s| vec![*s]).unwrap_or_default();
+                        let (got, key) = if n == NAMES.len() { (query_soa(r.as_ref()), SOA_KEY) } else { (query_stamps(r.as_ref(), n), n) };
+                        let want: Vec<u32> = committed[*pinned].get(&key).map(|s| vec![*s]).unwrap_or_default();
                         trace.push(format!("R{} query {} -> {:?}", i, n, got));
                         c.count("reader_queries", 1);
                         if writer.is_some() || committed.len() - 1 > *pinned {
@@ -209,7 +234,7 @@ fn history(c: &mut Ctx, rt: &tokio::runtime::Runtime, fam: &str, idx: u64) {
                 Op::Walk(i) => {
                     if let Some((r, pinned)) = &readers[i] {
                         let got = walk_stamps(r.as_ref());
-                        let want: BTreeSet<(Vec<u8>, u32)> = committed[*pinned].iter().map(|(n, s)| (w::lower(&name_of(*n)), *s)).collect();
+                        let want: BTreeSet<(Vec<u8>, u32)> = committed[*pinned].iter().filter(|(n, _)| **n != SOA_KEY).map(|(n, s)| (w::lower(&name_of(*n)), *s)).collect();
                         trace.push(format!("R{} walk -> {} records", i, got.len()));
                         c.count("reader_walks", 1);
                         if got != want {
@@ -255,13 +280,21 @@ fn history(c: &mut Ctx, rt: &tokio::runtime::Runtime, fam: &str, idx: u64) {
                         trace.push("W remove_all".into());
                     }
                 }
-                Op::WCommit => {
-                    if let Some((mut wz, node, work)) = writer.take() {
+                Op::WCommit(bump) => {
+                    if let Some((mut wz, node, mut work)) = writer.take() {
                         drop(node);
-                        rt.block_on(wz.commit(false)).map_err(|e| ("writer:commit".to_string(), e.to_string()))?;
+                        // the automatic bump: the old SOA with its serial increased, unless the writer supplied a new SOA
+                        if bump {
+                            if let Some(old) = committed.last().unwrap().get(&SOA_KEY).copied() {
+                                if work.get(&SOA_KEY).map(|s| *s == old).unwrap_or(true) {
+                                    work.insert(SOA_KEY, old.wrapping_add(1));
+                                }
+                            }
+                        }
+                        rt.block_on(wz.commit(bump)).map_err(|e| ("writer:commit".to_string(), e.to_string()))?;
                         drop(wz);
                         committed.push(work);
-                        trace.push(format!("W commit -> version {}", committed.len() - 1));
+                        trace.push(format!("W commit(bump {}) -> version {}", bump, committed.len() - 1));
                         sig_events.push(3);
                         c.count("commits", 1);
                         check_invariants(&zone, Some((committed.len() - 1) as u32)).map_err(|e| ("invariant:after-commit".to_string(), e))?;
@@ -298,7 +331,7 @@ fn history(c: &mut Ctx, rt: &tokio::runtime::Runtime, fam: &str, idx: u64) {
     drop(writer.take());
     let r = zone.read();
     let got = walk_stamps(r.as_ref());
-    let want: BTreeSet<(Vec<u8>, u32)> = committed.last().unwrap().iter().map(|(n, s)| (w::lower(&name_of(*n)), *s)).collect();
+    let want: BTreeSet<(Vec<u8>, u32)> = committed.last().unwrap().iter().filter(|(n, _)| **n != SOA_KEY).map(|(n, s)| (w::lower(&name_of(*n)), *s)).collect();
     if got != want {
         let rp = c.replay_of(fam, idx, json!({"ops": trace}));
         c.violation("snapshot:final-content", &format!("a reader acquired at the end sees {:?}, the last committed version has {:?}", got.iter().map(|x| x.1).collect::<Vec<_>>(), want.iter().map(|x| x.1).collect::<Vec<_>>()), rp);
